@@ -200,21 +200,25 @@ Definition delete_key (x : Z) (t : tree) : dres :=
 
 (* ---------- lookups ---------- *)
 
-(* findGE: (node, exact) *)
-Fixpoint find_ge (x : Z) (t : tree) : option (Z * bool) :=
+(* findGE: the node (with its item) where the search ends; "exact" is the key comparison that the Go
+   code makes at that node *)
+Fixpoint find_ge_e (x : Z) (t : tree) : option (Z * Z * Z) :=
   match t with
   | E => None
-  | T _ l i k _ r =>
-      if x <? k then match find_ge x l with Some a => Some a | None => Some (i, false) end
-      else if k <? x then find_ge x r
-      else Some (i, true)
+  | T _ l i k v r =>
+      if x <? k then match find_ge_e x l with Some a => Some a | None => Some (i, k, v) end
+      else if k <? x then find_ge_e x r
+      else Some (i, k, v)
   end.
+
+Definition find_ge (x : Z) (t : tree) : option (Z * bool) :=
+  match find_ge_e x t with Some (i, k, _) => Some (i, k =? x) | None => None end.
 
 Fixpoint leftmost (d : Z) (t : tree) : Z := match t with E => d | T _ l i _ _ _ => leftmost i l end.
 Fixpoint rightmost (d : Z) (t : tree) : Z := match t with E => d | T _ _ i _ _ r => rightmost i r end.
 Definition min_id (t : tree) : Z := leftmost 0 t.      (* minNode *)
 Definition max_id (t : tree) : Z := rightmost 0 t.     (* maxNode *)
-Fixpoint size (t : tree) : Z := match t with E => 0 | T _ l _ _ _ r => size l + 1 + size r end.
+Fixpoint tsize (t : tree) : Z := match t with E => 0 | T _ l _ _ _ r => tsize l + 1 + tsize r end.
 
 (* key and value stored at a node id *)
 Fixpoint item_of (x : Z) (t : tree) : option (Z * Z) :=
@@ -265,9 +269,9 @@ Definition it_find_le (x : Z) (t : tree) : option Z :=
   end.
 
 Definition get (x : Z) (t : tree) : option Z :=
-  match find_ge x t with
-  | Some (n, true) => match item_of n t with Some (_, v) => Some v | None => None end
-  | _ => None
+  match find_ge_e x t with
+  | Some (_, k, v) => if k =? x then Some v else None
+  | None => None
   end.
 
 (* ---------- CloneDeep: the same shape and colours on freshly allocated nodes, in in-order ---------- *)
@@ -398,12 +402,12 @@ Definition step (s : state) (o : op) : state * res :=
       if it =? neg_limit then (s, RPanic)
       else if it =? limit then (s, RIt (it_max (get_tree s ti)))
       else (s, match prev_in it (get_tree s ti) neg_limit with Some n => RIt n | None => RUnspec end)
-  | OLen ti => (s, RLen (size (get_tree s ti)))
+  | OLen ti => (s, RLen (tsize (get_tree s ti)))
   | OErase ti => (set_tree s ti E, RUnit)
   | OClone src dst new_ids =>
       let t := get_tree s src in
       if negb (Nat.ltb src (length (trees s)) && Nat.ltb dst (length (trees s))
-               && is_E (get_tree s dst) && (Z.of_nat (length new_ids) =? size t)) then (s, RUnspec)
+               && is_E (get_tree s dst) && (Z.of_nat (length new_ids) =? tsize t)) then (s, RUnspec)
       else match malloc_seq (live s) (asize s) new_ids with
            | MOk sz' => (mkState (set_nth (trees s) dst (fst (relabel t new_ids))) sz', RUnit)
            | MPanic => (s, RPanic)
